@@ -312,3 +312,6 @@ def run(prog: Program, rep: Report, tier: str = "quick") -> None:
     rep.floor("R11.1", n)
     rep.floor("R11.2", n)
     rep.floor("R11.3", 2 * n)
+    from . import game
+
+    game.add_instances(rep, game.c11_job, [(i, tier) for i in range(n)], "R11.8", 18 * n)
